@@ -20,6 +20,7 @@ Judge(c) ==
     [] PROP = "C09" -> P_C09(c)
     [] PROP = "C05" -> P_C05(c)
     [] PROP = "C06" -> P_C06(c)
+    [] PROP = "C10" -> P_C10(c)
     [] OTHER -> FALSE
 Init == l = 0 /\ TLCSet(2, {})
 Step == l <= N /\ l' = l + 1
